@@ -136,28 +136,75 @@ def _sigtoks(text):
     return toks, [t for t in toks if t.k not in (rsx.WS, rsx.COM)]
 
 
-def find_pattern(text, pattern):
-    """all (a, b) byte spans in text whose significant tokens equal pattern's."""
+def find_pattern(text, pattern, want_caps=False):
+    """all (a, b) byte spans in text whose significant tokens equal pattern's.
+    `$_` matches any single token; `$NAME` (upper-case) captures a balanced, non-empty run of
+    tokens up to the next pattern token (usable as $NAME in a replacement)."""
     _, T = _sigtoks(text)
     _, Pt = _sigtoks(pattern)
     if not Pt:
         raise SpecError('empty pattern')
-    res = []
-    # `$_` in a pattern matches any single token
     ps = []
     k = 0
     while k < len(Pt):
         if Pt[k].s == '$' and k + 1 < len(Pt) and Pt[k + 1].s == '_':
             ps.append(None)
             k += 2
+        elif Pt[k].s == '$' and k + 1 < len(Pt) and Pt[k + 1].k == rsx.ID and Pt[k + 1].s.isupper():
+            ps.append(('cap', Pt[k + 1].s))
+            k += 2
         else:
             ps.append(Pt[k].s)
             k += 1
-    n, m = len(T), len(ps)
-    for i in range(n - m + 1):
-        if all(ps[k] is None or T[i + k].s == ps[k] for k in range(m)):
-            res.append((T[i].a, T[i + m - 1].b))
+    res = []
+    n = len(T)
+
+    def match(i, j, caps):
+        # match pattern from j at token i; returns end index or None
+        while j < len(ps):
+            p = ps[j]
+            if i >= n:
+                return None
+            if isinstance(p, tuple):
+                nxt = ps[j + 1] if j + 1 < len(ps) else None
+                depth = 0
+                e = i
+                while e < n:
+                    t = T[e]
+                    if depth == 0 and e > i and nxt is not None and not isinstance(nxt, tuple) and (nxt is None or t.s == nxt):
+                        r = match(e, j + 1, caps)
+                        if r is not None:
+                            caps[p[1]] = (T[i].a, T[e - 1].b)
+                            return r
+                    if t.k == rsx.P and t.s in rsx.OPEN:
+                        depth += 1
+                    elif t.k == rsx.P and t.s in rsx.CLOSE:
+                        if depth == 0:
+                            return None
+                        depth -= 1
+                    e += 1
+                return None
+            if p is not None and T[i].s != p:
+                return None
+            i += 1
+            j += 1
+        return i
+
+    for i in range(n):
+        caps = {}
+        e = match(i, 0, caps)
+        if e is not None and e > i:
+            if want_caps:
+                res.append((T[i].a, T[e - 1].b, {k2: text[a:b] for k2, (a, b) in caps.items()}))
+            else:
+                res.append((T[i].a, T[e - 1].b))
     return res
+
+
+def _subst(repl, caps):
+    for k2, v in caps.items():
+        repl = repl.replace('$' + k2, v)
+    return repl
 
 
 def apply_edit(text, op, pattern, repl, what, nth=None):
@@ -417,11 +464,11 @@ def inject(text, fs, oblig_lines=None, what=''):
             text = apply_edit(text, 'rewrite', pat, rep, '%s @rewrite %s' % (fs.path, arg))
             rewrites.append((arg, ' '.join(pat.split())[:100]))
         elif op == 'rewrite_all':
-            hits = find_pattern(text, pat)
+            hits = find_pattern(text, pat, want_caps=True)
             if not hits:
                 raise LostAnchor('%s @rewrite_all %s: pattern not found: %r' % (fs.path, arg, ' '.join(pat.split())[:80]))
-            for (a, b) in sorted(hits, reverse=True):
-                text = text[:a] + rep + text[b:]
+            for (a, b, caps) in sorted(hits, reverse=True):
+                text = text[:a] + _subst(rep, caps) + text[b:]
             rewrites.append((arg, '%dx %s' % (len(hits), ' '.join(pat.split())[:100])))
         elif op == 'drop':
             text = apply_edit(text, 'drop', pat, '', '%s @drop %s' % (fs.path, arg))
